@@ -47,6 +47,7 @@ func init() {
 		Jobs: []Job{
 			{Name: "robust", Run: "^TestRobust$", Checks: [2]int{1200, 10000}, Shards: [2]int{8, 16}},
 			{Name: "pairsrun", Run: "^TestTablePairsRun$", Shards: [2]int{8, 16}},
+			{Name: "snippetsrun", Run: "^TestTableSnippetsRun$", Shards: [2]int{2, 4}},
 		}})
 }
 
@@ -148,7 +149,7 @@ func init() {
 			{Name: "keys", Run: "^TestTableKeys$", Shards: [2]int{1, 1}},
 			{Name: "members", Run: "^TestTableMembers$", Shards: [2]int{2, 4}},
 			{Name: "index", Run: "^TestTableIndex$", Shards: [2]int{2, 4}},
-			{Name: "mutation", Run: "^(TestTableReceiverMutation|TestTableAnyObjectKeyNames)$", Shards: [2]int{1, 1}},
+			{Name: "mutation", Run: "^(TestTableReceiverMutation|TestTableAnyObjectKeyNames|TestTableObjectFieldNames)$", Shards: [2]int{1, 1}},
 		}})
 }
 
